@@ -331,4 +331,25 @@ def instCalls (call : List TInstr → (String → Option Int) → Option (List I
       match instCalls call t' σs with
       | (rs, tf) => (r :: rs, tf)
 
+/-! ### branch labels versus template names -/
+
+/-- `_update_labels_in_operand`: a `Label` operand (rendered `.txt`) that names an assigned
+branch label becomes its line number; nothing else is touched — in particular not a `Template`,
+whatever its name -/
+def assignLabel (L : List (String × Int)) : POp → POp
+  | .txt s => match L.lookup s with
+    | some v => .int v
+    | none => .txt s
+  | o => o
+
+/-- the duck-typed variant that looks at any operand's `name` (not the code; for a witness) -/
+def assignLabelByName (L : List (String × Int)) : POp → POp
+  | .txt s => match L.lookup s with
+    | some v => .int v
+    | none => .txt s
+  | .tmpl n => match L.lookup n with
+    | some v => .int v
+    | none => .tmpl n
+  | o => o
+
 end NQ.Tpl
